@@ -36,7 +36,7 @@ def gen_case(rng: random.Random, tier: str) -> dict:
     n = rng.choice([1, 2, 3, 5, 8, 17, 40, 60])
     cats = rng.sample(gen.CAT_VARS, rng.randint(1, 3))
     nums = rng.sample(gen.NUM_VARS, rng.randint(1, 3))
-    frame = gen.rand_frame(rng, n, cats=cats, nums=nums)
+    frame = gen.rand_frame(rng, n, cats=cats, nums=nums, index=rng.choice(["default", "default", "labels", "ints", "perm"]))
     terms, factors = gen.rand_terms(rng, frame, cats=cats, nums=nums)
     ctx = None
     if rng.random() < 0.25:  # factors whose values come (partly) from the evaluation context
